@@ -11,6 +11,7 @@ import (
 	"regexp"
 	"sort"
 	"strings"
+	"sync"
 	"testing"
 	"time"
 
@@ -129,6 +130,9 @@ func runFresh(t *testing.T, mc *verifsim.MapConfig, progs ...string) (last resul
 					// a corpus file, loaded from its path like `origami file.php` does
 					_, ctl = env.VM.LoadAndRun(filepath.Join(root(), "tests", strings.TrimPrefix(src, "@file:")))
 				} else {
+					if strings.Contains(src, "@INC@") {
+						src = strings.ReplaceAll(src, "@INC@", incDir())
+					}
 					_, _, ctl = env.Run(src, "/verif/c20/prog.php")
 				}
 				if data.FlushAllBuffersFn != nil {
@@ -278,6 +282,36 @@ func execute(t *testing.T, x any, s hx.Sched) *hx.Outcome {
 		}
 	}
 	return o
+}
+
+// include fixtures: files that generated programs require/include by absolute path
+// ("@INC@" in a program stands for this directory, which belongs to the scratch tree)
+var incFiles = map[string]string{
+	"lib_defs.php":  "<?php\nclass IncK { public function tag() { return \"inck\"; } }\nfunction inc_fn() { return \"incfn\"; }\nreturn [\"cfg\" => 1, \"name\" => \"lib\"];\n",
+	"lib_ret.php":   "<?php\nreturn [\"a\" => 1, \"b\" => [1, 2]];\n",
+	"lib_once.php":  "<?php\nfunction once_fn() { return \"once\"; }\nreturn \"once-ret\";\n",
+	"lib_iface.php": "<?php\ninterface IncI { }\nclass IncImpl implements IncI { public $v = 3; }\n",
+}
+
+var incOnce sync.Once
+
+func incDir() string {
+	dir := filepath.Join(root(), "genprogs", "inc")
+	incOnce.Do(func() {
+		os.MkdirAll(dir, 0o755)
+		for name, text := range incFiles {
+			p := filepath.Join(dir, name)
+			if b, err := os.ReadFile(p); err == nil && string(b) == text {
+				continue
+			}
+			tmp := fmt.Sprintf("%s.%d", p, os.Getpid())
+			if err := os.WriteFile(tmp, []byte(text), 0o644); err != nil {
+				panic(err)
+			}
+			os.Rename(tmp, p)
+		}
+	})
+	return dir
 }
 
 func siteDesc(site int32) string {
